@@ -81,6 +81,10 @@ func mintKeys(b *bk.Broker) (map[string]string, error) {
 		}
 		out[name] = k
 	}
+	// a key whose target is a branch (not the all-covering "#/"): the target arithmetic of Key.ValidateChannel runs
+	if k, err := b.Key("stranger/#/", "rwslp", time.Unix(0, 0)); err == nil {
+		out["kBranch"] = k
+	}
 	return out, nil
 }
 
@@ -402,6 +406,11 @@ func (w *world) hostile(c *bk.Client, cls string, rng *rand.Rand) (bool, error) 
 		lv := map[string]string{"sub-deep": "d/", "sub-plus-deep": "+/", "sub-mixed-deep": "d/+/"}[cls]
 		n := map[string]int{"sub-deep": 64, "sub-plus-deep": 40, "sub-mixed-deep": 24}[cls]
 		topic := []byte(k + "/deep/" + strings.Repeat(lv, n))
+		if w.msgID%2 == 1 {
+			// every other time with a key whose target is the branch "stranger/#/" (the deep levels are then checked
+			// against the key's target path, not waved through by the all-covering target)
+			topic = []byte(w.key("kBranch") + "/stranger/" + strings.Repeat(lv, n))
+		}
 		w.msgID++
 		c.Send(&mqtt.Subscribe{MessageID: w.msgID, Subscriptions: []mqtt.TopicQOSTuple{{Topic: topic}}})
 		w.msgID++
@@ -688,9 +697,9 @@ func replayWith(nb int, surveyed, standalone bool, mode string, licVer int, stor
 			case "will-deep-24", "will-deep-40", "will-long":
 				// a session whose last will goes to a channel of very many levels / a very long level (the will is
 				// authorized and published when the connection is torn down)
-				topic := w.key("kAll") + "/stranger/" + strings.Repeat("d/", map[string]int{"will-deep-24": 23, "will-deep-40": 39, "will-long": 1}[a.Cls])
+				topic := w.key("kBranch") + "/stranger/" + strings.Repeat("d/", map[string]int{"will-deep-24": 23, "will-deep-40": 39, "will-long": 1}[a.Cls])
 				if a.Cls == "will-long" {
-					topic = w.key("kAll") + "/stranger/" + strings.Repeat("L", 30000) + "/"
+					topic = w.key("kBranch") + "/stranger/" + strings.Repeat("L", 30000) + "/"
 				}
 				x.Send(&mqtt.Connect{ClientID: []byte("stranger"), WillFlag: true, WillTopic: []byte(topic), WillMessage: []byte("last words")})
 				x.Barrier(stepTimeout)
